@@ -1,10 +1,9 @@
 CONSTANTS
   Dev = {}
-  RD = 1
-  MaxRetries = 0
+  TickMs = 10000
+  Confs = {}
   MaxDgrams = 0
   Faults = {}
-  MRT = 1
   MReqs = {1}
   MaxConn = 0
 SPECIFICATION TSpec
